@@ -124,7 +124,11 @@ func (ex *Exec) storeLV(st State, lv *LV, v Term) {
 	root := ex.cellValue(st, lv.Cell)
 	nv := ex.writePath(root, lv.Path, v)
 	st[lv.Cell] = ex.vc.Define("c_"+lv.Cell.Name, nv)
-	ex.markWritten(lv.Cell)
+	if len(lv.Path) > 0 && lv.Path[0].Kind == 'f' {
+		ex.markWritten(lv.Cell, lv.Path[0].Field)
+	} else {
+		ex.markWritten(lv.Cell, -1)
+	}
 }
 
 // viewOf: the current data term of a value, re-reading the origin for live views.
